@@ -149,6 +149,10 @@ def run_shard(binary, part, cid, tier, verif_seed, idx, shard, nshards, workdir,
         env[k] = str(v)
     if part.get("race"):
         env["GORACE"] = "halt_on_error=1 exitcode=66"
+    # everything a test process creates with os.MkdirTemp / os.CreateTemp (simulator work dirs with their RocksDB state,
+    # miner engine dirs, generated config dirs: ~150 MB per booted chain) lives under the run's work dir and goes with it
+    env["TMPDIR"] = os.path.join(sd, "tmp")
+    os.makedirs(env["TMPDIR"], exist_ok=True)
     checks = part.get(tier, part.get("quick", 100))
     checks = max(1, (checks * mult + nshards - 1) // nshards)
     timeout = part.get("timeout_" + tier, 900 if tier == "quick" else 3000)
@@ -437,6 +441,8 @@ def replay(path):
             env[k] = str(v)
         if part.get("race"):
             env["GORACE"] = "halt_on_error=1 exitcode=66"
+        env["TMPDIR"] = os.path.join(workdir, "tmp")
+        os.makedirs(env["TMPDIR"], exist_ok=True)
         cmd = [binary, "-test.run", part["run"], "-test.count=1", "-test.timeout", "900s", "-test.v"]
         if path.endswith(".fail"):
             cmd += ["-rapid.failfile", os.path.abspath(path)]
